@@ -94,31 +94,56 @@ def oracle(n, edges, initial, final, strict, any_targets=(), bare_event=False):
 
 # ----------------------------------------------------------------------------- rendering
 def render(n, edges, initial, final, strict, style, any_targets=(), bare_event=False):
+    """style = <transition style>[+names][+enum|+dict]: `names` gives several states the same display
+    name, `enum` declares the states through States.from_enum over an IntEnum that starts at 0 (a single
+    final state is passed as a scalar), `dict` through States({...})."""
+    style, *mods = style.split("+")
     lines = [
         "class M(StateMachine%s):" % (", strict_states=True" if strict else ""),
     ]
-    for s in range(n):
-        flags = []
-        if s in initial:
-            flags.append("initial=True")
-        if s in final:
-            flags.append("final=True")
-        lines.append(f"    s{s} = State({', '.join(flags)})")
+    pre = ""
+    if "enum" in mods:
+        pre = "_S."
+        lines = ["class E(enum.IntEnum):"] + [f"    s{s} = {s}" for s in range(n)] + [""] + lines
+        kw = []
+        if len(initial) == 1:
+            kw.append(f"initial=E.s{next(iter(initial))}")
+        if len(final) == 1:
+            kw.append(f"final=E.s{next(iter(final))}")
+        elif final:
+            kw.append("final=[" + ", ".join(f"E.s{s}" for s in sorted(final)) + "]")
+        lines.append(f"    _S = States.from_enum(E, {', '.join(kw)})")
+    else:
+        decls = []
+        for s in range(n):
+            flags = []
+            if "names" in mods:
+                flags.append(repr("Step" if s % 3 != 2 else "Other"))
+            if s in initial:
+                flags.append("initial=True")
+            if s in final:
+                flags.append("final=True")
+            decls.append((f"s{s}", f"State({', '.join(flags)})"))
+        if "dict" in mods:
+            pre = "_S."
+            lines.append("    _S = States({" + ", ".join(f"{k_!r}: {v_}" for k_, v_ in decls) + "})")
+        else:
+            lines += [f"    {k_} = {v_}" for k_, v_ in decls]
     k = 0
     if style == "per_edge":
         for i, j, internal in edges:
             kw = ", internal=True" if internal else ""
-            lines.append(f"    e{k} = s{i}.to(s{j}{kw})")
+            lines.append(f"    e{k} = {pre}s{i}.to({pre}s{j}{kw})")
             k += 1
     elif style == "from":
         for i, j, internal in edges:
             kw = ", internal=True" if internal else ""
-            lines.append(f"    e{k} = s{j}.from_(s{i}{kw})")
+            lines.append(f"    e{k} = {pre}s{j}.from_({pre}s{i}{kw})")
             k += 1
     elif style == "one_event":
         if edges:
             parts = [
-                f"s{i}.to(s{j}{', internal=True' if internal else ''})" for i, j, internal in edges
+                f"{pre}s{i}.to({pre}s{j}{', internal=True' if internal else ''})" for i, j, internal in edges
             ]
             lines.append("    go = (" + " | ".join(parts) + ")")
     elif style == "multi_target":
@@ -128,21 +153,21 @@ def render(n, edges, initial, final, strict, style, any_targets=(), bare_event=F
             by_src.setdefault((i, internal), []).append(j)
         for (i, internal), js in by_src.items():
             kw = ", internal=True" if internal else ""
-            lines.append(f"    e{k} = s{i}.to({', '.join('s%d' % j for j in js)}{kw})")
+            lines.append(f"    e{k} = {pre}s{i}.to({', '.join('%ss%d' % (pre, j) for j in js)}{kw})")
             k += 1
     elif style == "event_kw":
         for i, j, internal in edges:
             kw = ", internal=True" if internal else ""
-            lines.append(f"    s{i}.to(s{j}, event='ev{k}'{kw})")
+            lines.append(f"    {pre}s{i}.to({pre}s{j}, event='ev{k}'{kw})")
             k += 1
     else:
         raise ValueError(style)
     for t in any_targets:
-        lines.append(f"    any{k} = s{t}.from_.any()")
+        lines.append(f"    any{k} = {pre}s{t}.from_.any()")
         k += 1
     if bare_event:
         lines.append("    bare = Event()")
-    if len(lines) == 1:
+    if lines[-1].startswith("class M("):
         lines.append("    pass")
     return "\n".join(lines) + "\n"
 
@@ -156,7 +181,11 @@ def execute(src):
     from statemachine.event import Event
     from statemachine.exceptions import InvalidDefinition
 
-    ns = {"State": State, "StateMachine": StateMachine, "Event": Event, "__name__": "vmon_c09"}
+    import enum
+
+    from statemachine.states import States
+
+    ns = {"State": State, "StateMachine": StateMachine, "Event": Event, "States": States, "enum": enum, "__name__": "vmon_c09"}
     with warnings.catch_warnings(record=True) as rec:
         warnings.simplefilter("always")
         try:
@@ -277,6 +306,13 @@ def sampled_case(rng):
         edges = []
     strict = rng.random() < 0.5
     style = rng.choice(STYLES)
+    r = rng.random()
+    if r < 0.12:
+        style += "+names"
+    elif r < 0.24 and len(init) == 1:       # from_enum takes exactly one initial member
+        style += "+enum"
+    elif r < 0.32:
+        style += "+dict" + ("+names" if rng.random() < 0.3 else "")
     return (n, edges, init, fin, strict, style, any_targets, bare)
 
 
